@@ -78,7 +78,10 @@ def check_cursor(ctx, num=1):
                 hid = g.node_of(inner[0]).id
                 okd = g.path_avoiding(hid, {hid, g.exit.id}, {g.node_of(apps[0]).id}, edge_ok=lambda a, b, lab: not (a == hid and lab == "done")) is None
             # delivery before the advance, both in every iteration of the while
-            okd = okd and g.dominates(inner[0], advs[0]) and g.path_avoiding(wid, {wid}, {g.node_of(advs[0]).id}, edge_ok=lambda a, b, lab: isinstance(lab, tuple) and b != g.exit.id) is None
+            start = g.node_of(w.body[0]).id
+            aid = g.node_of(advs[0]).id
+            skip_adv = None if start == aid else g.path_avoiding(start, {wid}, {aid})
+            okd = okd and g.dominates(inner[0], advs[0]) and skip_adv is None
             d = f"`{stmt_text(inner[0])}` appends every element's pipeline to `{out}` in order, then advances"
         ctx.ob(num, "K3", "every pipeline of a due batch is delivered, in file order, exactly once (the batch is then left behind)", okd, f, inner[0] if inner else w, detail=d)
         other = [c for c in own_nodes(f.node) if isinstance(c, ast.Call) and isinstance(c.func, ast.Attribute) and norm.is_name(c.func.value, out) and c.func.attr != "append"]
@@ -250,11 +253,19 @@ def check_grid(ctx, le_atom, num=4):
     want = norm.U(norm.subst(arr, {tv: ast.parse("self.current_tick", mode="eval").body}))
     raw = norm.U(l).endswith(".arrival_seconds")
     same = norm.U(r) == want
-    construct = f"writer G_w({tv}) = {Gw} ; reader test: {norm.U(l)} <= {norm.U(r)}"
+    Gk = norm.U(norm.subst(arr, {tv: ast.Name("k", ast.Load())}))
+    construct = f"writer G_w(k) = {Gk} ; reader test: {norm.U(l)} <= {norm.U(r)}"
     ctx.ob(num, "K14b", "grid agreement: the reader compares the stored arrival itself against the image of the current tick under the writer's own forward map "
            "(`arrival <= G_w(current_tick)`), so a pipeline written at tick k is delivered at tick k for every k and tick rate", raw and same, rd, whiles[0], construct=construct,
            detail=f"left side is the raw arrival: {raw}; right side is G_w(current_tick) = `{want}`: {same}. A float map is not invertible: dividing the rounded arrival by the rounded "
                   f"tick length can land above k (3 * 0.1 / 0.1 > 3), delivering one tick late.")
+
+
+def params_name(f):
+    for n in own_nodes(f.node):
+        if isinstance(n, ast.Assign) and isinstance(n.targets[0], ast.Name) and isinstance(n.value, ast.Call) and norm.call_name(n.value) == "parse_args_with_defaults":
+            return n.targets[0].id
+    return "params"
 
 
 def check_params(ctx, num=5):
@@ -269,18 +280,20 @@ def check_params(ctx, num=5):
     ctx.touch(sim)
     env = single_defs(sim)
     loops = [n for n in sim.node.body if isinstance(n, ast.For) and isinstance(n.iter, ast.Call) and norm.is_name(n.iter.func, "range")]
-    oks = any(ratform.same(norm.subst(l.iter.args[0], env), ratform.parse("int(params['duration'] * params['ticks_per_second'])")) for l in loops)
+    pn = params_name(sim)
+    oks = any(ratform.same(norm.subst(l.iter.args[0], env), ratform.parse(f"int({pn}['duration'] * {pn}['ticks_per_second'])")) for l in loops)
     ctx.ob(num, "K7", "the simulator runs int(duration * ticks_per_second) ticks", oks, sim, loops[0] if loops else sim.node, detail=f"{[stmt_text(l) for l in loops]}")
     for cmd in ("gentrace_command", "mkregression_command"):
         f = P.fn(MAIN, cmd)
         ctx.touch(f)
+        pn = params_name(f)
         cs = calls_named(f, "WorkloadTraceGenerator")
-        ok = len(cs) == 1 and norm.U(norm.kwarg(cs[0], "ticks_per_second", 1)) == "params['ticks_per_second']" and norm.U(norm.kwarg(cs[0], "duration_secs", 2)) == "params['duration']"
+        ok = len(cs) == 1 and norm.U(norm.kwarg(cs[0], "ticks_per_second", 1)) == f"{pn}['ticks_per_second']" and norm.U(norm.kwarg(cs[0], "duration_secs", 2)) == f"{pn}['duration']"
         ctx.ob(num, "K6", f"{cmd} writes the trace with the configuration's own ticks_per_second and duration", ok, f, cs[0] if cs else f.node, detail=f"{[norm.U(c) for c in cs]}")
     for cmd in ("run_command", "mkregression_command"):
         f = P.fn(MAIN, cmd)
         cs = calls_named(f, "get_workload")
-        ok = len(cs) == 1 and len(cs[0].args) == 1 and norm.U(cs[0].args[0]) == "params['ticks_per_second']"
+        ok = len(cs) == 1 and len(cs[0].args) == 1 and norm.U(cs[0].args[0]) == f"{params_name(f)}['ticks_per_second']"
         ctx.ob(num, "K6", f"{cmd} replays the trace at the configuration's own ticks_per_second", ok, f, cs[0] if cs else f.node, detail=f"{[norm.U(c) for c in cs]}")
     gw = P.fn(WL, "WorkloadReader.get_workload")
     ctx.touch(gw)
